@@ -541,6 +541,12 @@ def vMig (m : Mon) (l : Line) (o : Obs) : Option String :=
     some s!"site=migration.owner.{l.call.name} accepted without the owner's authorization"
   else none
 
+/-- "works again after unpausing": the owner's authorized `unpause` of a paused contract is never refused -/
+def vUnpause (m : Mon) (l : Line) (o : Obs) : Option String :=
+  if m.kind.hasPause ∧ ¬ o.ok ∧ l.call = .gate .unpause ∧ m.paused ∧ l.a.head? = some m.owner ∧ l.auth.contains m.owner then
+    some s!"site=pausable.unpause.refused.{m.kind.name} the owner's authorized unpause of a paused contract was refused: the contract cannot be unpaused"
+  else none
+
 /-- the property's conclusion for one call, on observed values only (first failing check) -/
 def verdict (m : Mon) (l : Line) (o : Obs) : Option String :=
   orElse (vRollback m o) fun _ =>
@@ -548,7 +554,8 @@ def verdict (m : Mon) (l : Line) (o : Obs) : Option String :=
   orElse (vList m l o) fun _ =>
   orElse (vListEv m l o) fun _ =>
   orElse (vCap m l o) fun _ =>
-  vMig m l o
+  orElse (vMig m l o) fun _ =>
+  vUnpause m l o
 
 /-- the monitor's step on parsed values -/
 def checkCore (m : Mon) (l : Line) (o : Obs) : Mon × Option String :=
